@@ -4,5 +4,5 @@
 import sys
 sys.path[:0] = ['/repo' + "/pulser-core", '/repo' + "/pulser-simulation", "/verif"]
 from symx.replay import replay
-sys.exit(replay(check='checks.c09', kernel='l1', shape={'own': {'clock': 1, 'local': False, 'slots': ['pulseA'], 'mod': True, 'pj': 'derived', 'det_off': 0.0, 'eom': {'custom_buffer': False, 'blocks': [(0, None)]}}, 'op': ['modify_eom', 0.0], 'maxseq': True, 'nbarriers': 1},
-                assignment={'max_sequence_duration': 3, 'own.min_duration': 2, 'own.tr': 1, 'own.eom_tr': 1, 'own.s0.dur': 2, 'buf#1.start': 0, 'buf#1.end': 0, 'buf#2.start': 0, 'buf#2.end': 0}, label='c09:raise_unchanged'))
+sys.exit(replay(check='checks.c09', kernel='l1', shape={'own': {'clock': 1, 'local': False, 'slots': ['pulseA'], 'mod': True, 'pj': 'derived', 'det_off': 0.0, 'eom': {'custom_buffer': False, 'blocks': [(0, None)]}}, 'op': ['disable_eom'], 'maxseq': True, 'nbarriers': 1},
+                assignment={'max_sequence_duration': 5, 'own.min_duration': 3, 'own.tr': 2, 'own.eom_tr': 1, 'own.s0.dur': 3, 'buf#1.start': 0, 'buf#1.end': 0, 'buf#2.start': 0, 'buf#2.end': 1}, label='c09:raise_unchanged'))
